@@ -38,6 +38,8 @@ def run(ctx, rep):
     r1_r2(prog, ev, rep)
     r3(prog, ev, rep)
     r4(prog, ev, rep)
+    from rules import shared
+    shared.literal_exact(prog, ev, rep, "C14-R5")
 
 
 def _walkall(x):
